@@ -13,7 +13,8 @@ lists, the options, and any number of calls):
   call `p1,p2/k:v,k:v` (a dash on either side of the slash = empty).
 
 Output (one line): `err <Error>` or
-  `S <signature> ; M <name doc module wrapped async> ; A <annotations of the parameters, return> ;
+  `S <signature> ; M <name doc module wrapped async> ; A <annotations of the parameters, return;
+   `*` for a parameter the request removed and added again> ;
    D <def items> ; I <invocation items> (source text modulo white space) ; <call outcome>,<call outcome>…`
   call outcome: `E` (TypeError while binding), `?` (body did not evaluate), or
   `R<pos>/<kws>` (what `_call` received) followed, for plain wraps, by `=B<bound of f on that call>`.
@@ -112,6 +113,12 @@ def showBound (b : Bound) : String :=
     | some l => showPairs (sortPairs l)
   s!"{showPairs b.pos}|{st}|{showPairs b.kwo}|{ds}"
 
+/-- annotations of the parameters as `inspect.signature` shows them; `*` for a parameter the
+    request removed and added again (`readded`): the statement leaves its annotation open -/
+def showAnns (w : Func) (mask : List Name) : String :=
+  ",".intercalate ((paramNames w).map fun n =>
+    if mask.contains n then s!"{n}:*" else s!"{n}:{showOpt (get? n w.ann)}")
+
 def outcome (f w : Func) (plain : Bool) (c : Call) : String :=
   match bind (sigOf w) c with
   | none => "E"
@@ -205,7 +212,7 @@ def handleB (toks : List String) : String :=
         match fb.getFunc 2 none fb.invocationSpecs with
         | .error e => s!"{hdr} ; err {showErr e}"
         | .ok w =>
-          let anns := ",".intercalate ((paramNames w).map fun n => s!"{n}:{showOpt (get? n w.ann)}")
+          let anns := showAnns w (readded ops)
           let outs := calls.map (outcome f w false)
           let asyS := if w.isAsync then "1" else "0"
           s!"{hdr} ; S {showSig (sigOf w)} ; M {w.name} {showOpt w.doc} {showOpt w.module} {showOpt w.wrapped} {asyS} ; A {anns} r:{showOpt w.retAnn} ; {",".intercalate outs}"
@@ -245,13 +252,31 @@ def showRes : Res → String
   | .skip => "s"
   | .edited => "m"
 
-def showFuncBlock (w : Func) (calls : Option (List Call)) : String :=
-  let anns := ",".intercalate ((paramNames w).map fun n => s!"{n}:{showOpt (get? n w.ann)}")
+def showFuncBlock (w : Func) (mask : List Name) (calls : Option (List Call)) : String :=
+  let anns := showAnns w mask
   let asyS := if w.isAsync then "1" else "0"
   let base := s!"S {showSig (sigOf w)} ; M {w.name} {showOpt w.doc} {showOpt w.module} {showOpt w.wrapped} {asyS} ; A {anns} r:{showOpt w.retAnn}"
   match calls with
   | none => base
   | some cs => s!"{base} ; C {",".intercalate (cs.map (outcome w w false))}"
+
+def reqMask : Req → List Name
+  | .wrap _ inj exp _ => readdedW inj exp
+  | .hist _ ops => readded ops
+  | _ => []
+
+def reqTarget : Req → Nat
+  | .wrap t _ _ _ => t
+  | .hist t _ => t
+  | .setKwd t _ _ => t
+  | .setAnn t _ _ => t
+
+/-- per function of a session: the names whose annotation is left open - those its own request
+    removed and added again, and those left open in the function it was built from -/
+def masks : List (List Name) → List Req → List Res → List (List Name)
+  | ms, r :: rs, .built :: qs => masks (ms ++ [(ms[reqTarget r]?).getD [] ++ reqMask r]) rs qs
+  | ms, _ :: rs, _ :: qs => masks ms rs qs
+  | ms, _, _ => ms
 
 def sibling? (s : String) (f : Func) : Option (Option Func) :=
   if s = "-" then some none else
@@ -277,8 +302,9 @@ def handleW (toks : List String) : String :=
       | some sb =>
         let base := f :: sb.toList
         let fin := run (St.init base) reqs
+        let ms := masks (base.map fun _ => []) reqs fin.2
         let blocks := fin.1.view.zipIdx.map fun (w, i) =>
-          showFuncBlock w (if i < base.length then none else some calls)
+          showFuncBlock w ((ms[i]?).getD []) (if i < base.length then none else some calls)
         let res := if fin.2.isEmpty then "-" else ",".intercalate (fin.2.map showRes)
         " || ".intercalate (res :: blocks)
     | _, _, _, _, _, _, _, _, _, _, _, _, _ => "bad-op"
@@ -303,7 +329,7 @@ def handle (line : String) : String :=
       | .ok [] => "bad-op"
       | .ok (w :: ws) =>
         let plain := inj.isEmpty && exp.isEmpty
-        let anns := ",".intercalate ((paramNames w).map fun n => s!"{n}:{showOpt (get? n w.ann)}")
+        let anns := showAnns w (readdedW inj exp)
         let fb := FB.fromFunc w
         let outs := calls.map (outcomeStack f (w :: ws) plain)
         let asyS := if w.isAsync then "1" else "0"
